@@ -287,91 +287,6 @@ Section P.
     rewrite E in *. cbn in *. destruct (G eq_refl). auto.
   Qed.
 
-  (* ---- C02: progress.  With context-aware adapters, once the context is done or a pump has reported, some thread can move ---- *)
-  Definition thread_steps (s : state) := main_steps sc s ++ i2o_steps sc s ++ o2i_steps sc s.
-
-  Lemma nonempty_map {A B} (f : A -> B) l : l <> [] -> map f l <> [].
-  Proof. destruct l; simpl; congruence. Qed.
-  Lemma nonempty_app_r {A} (a b : list A) : b <> [] -> a ++ b <> [].
-  Proof. destruct a; simpl; auto; congruence. Qed.
-  Lemma nonempty_app_l {A} (a b : list A) : a <> [] -> a ++ b <> [].
-  Proof. destruct a; simpl; auto; congruence. Qed.
-
-  Hypothesis aware : in_aware sc = true /\ out_aware sc = true.
-
-  Lemma in_recv_enabled s : ctx_done s = true -> call_in_recv sc s <> [].
-  Proof. intros D. unfold call_in_recv. destruct aware as [-> _]. rewrite D. apply nonempty_app_r. discriminate. Qed.
-  Lemma in_send_enabled m s : call_in_send sc m s <> [].
-  Proof. unfold call_in_send. apply nonempty_app_l. destruct (in_send_fail sc) as [[k e]|]; [destruct (k <=? n_in_sends s)%nat|]; discriminate. Qed.
-  Lemma open_enabled s : ctx_done s = true -> call_open sc s <> [].
-  Proof. intros D. unfold call_open. destruct aware as [_ ->]. rewrite D. apply nonempty_app_r. discriminate. Qed.
-  Lemma out_send_enabled m s : call_out_send sc m s <> [].
-  Proof.
-    unfold call_out_send. destruct (0 <? closed s)%nat; [discriminate|]. apply nonempty_app_l.
-    destruct (out_send_fail sc) as [[k e]|]; [destruct (k <=? n_out_sends s)%nat|]; discriminate.
-  Qed.
-  Lemma out_recv_enabled s : ctx_done s = true -> call_out_recv sc s <> [].
-  Proof.
-    intros D. unfold call_out_recv. destruct (0 <? closed s)%nat; [discriminate|].
-    destruct aware as [_ ->]. rewrite D. apply nonempty_app_r. discriminate.
-  Qed.
-
-  Lemma i2o_enabled s : Struct s -> ctx_done s = true -> i_alive (ip s) = true -> i2o_steps sc s <> [].
-  Proof.
-    intros (_ & _ & _ & _ & D & _) C A. unfold i2o_steps. apply nonempty_map.
-    destruct (ip s) eqn:E; try discriminate.
-    - apply nonempty_map, in_recv_enabled, C.
-    - apply nonempty_map, out_send_enabled.
-    - destruct (islot s) eqn:S; [|discriminate]. assert (X : IPut f = IDone) by (apply D; discriminate). discriminate.
-  Qed.
-
-  Lemma o2i_enabled s : Struct s -> ctx_done s = true -> o_alive (op s) = true -> o2i_steps sc s <> [].
-  Proof.
-    intros (_ & _ & _ & _ & _ & D & _) C A. unfold o2i_steps. apply nonempty_map.
-    destruct (op s) eqn:E; try discriminate;
-      try (apply nonempty_map; first [apply out_recv_enabled, C | apply in_send_enabled]).
-    destruct (oslot s) eqn:S; [|discriminate]. assert (X : OPut f = ODone) by (apply D; discriminate). discriminate.
-  Qed.
-
-  Theorem progress s : Struct s -> final s = false ->
-    (ctx_done s = true \/ islot s <> None \/ oslot s <> None) -> thread_steps s <> [].
-  Proof.
-    intros St NF Ev. unfold thread_steps.
-    destruct (mp s) eqn:E; try (unfold final in NF; rewrite E in NF; discriminate);
-      try (apply nonempty_app_l; unfold main_steps; rewrite E; apply nonempty_map; discriminate).
-    - (* MOpen *) destruct St as (A & B & _ & _ & D & D2 & _). rewrite E in *. cbn in *.
-      destruct Ev as [C|[S|S]].
-      + apply nonempty_app_l. unfold main_steps. rewrite E. apply nonempty_map, nonempty_map, open_enabled, C.
-      + exfalso. apply D in S. destruct (A eq_refl) as [X|[_ []]]. congruence.
-      + exfalso. apply D2 in S. rewrite (B eq_refl) in S. discriminate.
-    - (* MURecv *) destruct St as (A & B & _ & _ & D & D2 & _). rewrite E in *. cbn in *.
-      destruct Ev as [C|[S|S]].
-      + apply nonempty_app_l. unfold main_steps. rewrite E. apply nonempty_map, nonempty_map, in_recv_enabled, C.
-      + exfalso. apply D in S. destruct (A eq_refl) as [X|[_ []]]. congruence.
-      + exfalso. apply D2 in S. rewrite (B eq_refl) in S. discriminate.
-    - (* MUOpen *) destruct St as (A & B & _ & _ & D & D2 & _). rewrite E in *. cbn in *.
-      destruct Ev as [C|[S|S]].
-      + apply nonempty_app_l. unfold main_steps. rewrite E. apply nonempty_map, nonempty_map, open_enabled, C.
-      + exfalso. apply D in S. destruct (A eq_refl) as [X|[_ []]]. congruence.
-      + exfalso. apply D2 in S. rewrite (B eq_refl) in S. discriminate.
-    - (* MUSend *) apply nonempty_app_l. unfold main_steps. rewrite E. apply nonempty_map, nonempty_map, out_send_enabled.
-    - (* MSelect *) apply nonempty_app_l. unfold main_steps. rewrite E. apply nonempty_map.
-      destruct Ev as [C|[S|S]].
-      + rewrite C. discriminate.
-      + apply nonempty_app_r, nonempty_app_l. destruct (islot s); [discriminate | congruence].
-      + apply nonempty_app_r, nonempty_app_r. destruct (oslot s); [discriminate | congruence].
-    - (* MDWait *) pose proof St as (_ & _ & _ & _ & _ & _ & F & _). rewrite E in F. cbn in F.
-      assert (C : ctx_done s = true) by (unfold ctx_done; rewrite (F eq_refl); reflexivity).
-      destruct (i_alive (ip s)) eqn:IA.
-      { apply nonempty_app_r, nonempty_app_l, i2o_enabled; auto. }
-      destruct (o_alive (op s)) eqn:OA.
-      { apply nonempty_app_r, nonempty_app_r, o2i_enabled; auto. }
-      apply nonempty_app_l. unfold main_steps. rewrite E.
-      assert (W : wg s = 0%nat) by (unfold wg; destruct (ip s), (op s); cbn in *; try discriminate; reflexivity).
-      rewrite W. discriminate.
-  Qed.
-
-
   (* ---- C02/C12: where a status can come from ---- *)
   Definition script_codes : list Z :=
     flat_map (fun i => match i with IErr e => [e] | _ => [] end) (in_recv sc) ++
@@ -456,6 +371,91 @@ Section P.
 
   Theorem deadline_exceeded_means_deadline s : Reach s -> mp s = MRet (RErr 4) -> ~ In 4 script_codes -> fired s = CtxDeadline.
   Proof. intros R E N. destruct (result_source s 4 R E) as [H|[H|[H|[_ H]]]]; try discriminate; try contradiction. exact H. Qed.
+
+  (* ---- C02: progress.  With context-aware adapters, once the context is done or a pump has reported, some thread can move ---- *)
+  Definition thread_steps (s : state) := main_steps sc s ++ i2o_steps sc s ++ o2i_steps sc s.
+
+  Lemma nonempty_map {A B} (f : A -> B) l : l <> [] -> map f l <> [].
+  Proof. destruct l; simpl; congruence. Qed.
+  Lemma nonempty_app_r {A} (a b : list A) : b <> [] -> a ++ b <> [].
+  Proof. destruct a; simpl; auto; congruence. Qed.
+  Lemma nonempty_app_l {A} (a b : list A) : a <> [] -> a ++ b <> [].
+  Proof. destruct a; simpl; auto; congruence. Qed.
+
+  Hypothesis aware : in_aware sc = true /\ out_aware sc = true.
+
+  Lemma in_recv_enabled s : ctx_done s = true -> call_in_recv sc s <> [].
+  Proof. intros D. unfold call_in_recv. destruct aware as [-> _]. rewrite D. apply nonempty_app_r. discriminate. Qed.
+  Lemma in_send_enabled m s : call_in_send sc m s <> [].
+  Proof. unfold call_in_send. apply nonempty_app_l. destruct (in_send_fail sc) as [[k e]|]; [destruct (k <=? n_in_sends s)%nat|]; discriminate. Qed.
+  Lemma open_enabled s : ctx_done s = true -> call_open sc s <> [].
+  Proof. intros D. unfold call_open. destruct aware as [_ ->]. rewrite D. apply nonempty_app_r. discriminate. Qed.
+  Lemma out_send_enabled m s : call_out_send sc m s <> [].
+  Proof.
+    unfold call_out_send. destruct (0 <? closed s)%nat; [discriminate|]. apply nonempty_app_l.
+    destruct (out_send_fail sc) as [[k e]|]; [destruct (k <=? n_out_sends s)%nat|]; discriminate.
+  Qed.
+  Lemma out_recv_enabled s : ctx_done s = true -> call_out_recv sc s <> [].
+  Proof.
+    intros D. unfold call_out_recv. destruct (0 <? closed s)%nat; [discriminate|].
+    destruct aware as [_ ->]. rewrite D. apply nonempty_app_r. discriminate.
+  Qed.
+
+  Lemma i2o_enabled s : Struct s -> ctx_done s = true -> i_alive (ip s) = true -> i2o_steps sc s <> [].
+  Proof.
+    intros (_ & _ & _ & _ & D & _) C A. unfold i2o_steps. apply nonempty_map.
+    destruct (ip s) eqn:E; try discriminate.
+    - apply nonempty_map, in_recv_enabled, C.
+    - apply nonempty_map, out_send_enabled.
+    - destruct (islot s) eqn:S; [|discriminate]. assert (X : IPut f = IDone) by (apply D; discriminate). discriminate.
+  Qed.
+
+  Lemma o2i_enabled s : Struct s -> ctx_done s = true -> o_alive (op s) = true -> o2i_steps sc s <> [].
+  Proof.
+    intros (_ & _ & _ & _ & _ & D & _) C A. unfold o2i_steps. apply nonempty_map.
+    destruct (op s) eqn:E; try discriminate;
+      try (apply nonempty_map; first [apply out_recv_enabled, C | apply in_send_enabled]).
+    destruct (oslot s) eqn:S; [|discriminate]. assert (X : OPut f = ODone) by (apply D; discriminate). discriminate.
+  Qed.
+
+  Theorem progress s : Struct s -> final s = false ->
+    (ctx_done s = true \/ islot s <> None \/ oslot s <> None) -> thread_steps s <> [].
+  Proof.
+    intros St NF Ev. unfold thread_steps.
+    destruct (mp s) eqn:E; try (unfold final in NF; rewrite E in NF; discriminate);
+      try (apply nonempty_app_l; unfold main_steps; rewrite E; apply nonempty_map; discriminate).
+    - (* MOpen *) destruct St as (A & B & _ & _ & D & D2 & _). rewrite E in *. cbn in *.
+      destruct Ev as [C|[S|S]].
+      + apply nonempty_app_l. unfold main_steps. rewrite E. apply nonempty_map, nonempty_map, open_enabled, C.
+      + exfalso. apply D in S. destruct (A eq_refl) as [X|[_ []]]. congruence.
+      + exfalso. apply D2 in S. rewrite (B eq_refl) in S. discriminate.
+    - (* MURecv *) destruct St as (A & B & _ & _ & D & D2 & _). rewrite E in *. cbn in *.
+      destruct Ev as [C|[S|S]].
+      + apply nonempty_app_l. unfold main_steps. rewrite E. apply nonempty_map, nonempty_map, in_recv_enabled, C.
+      + exfalso. apply D in S. destruct (A eq_refl) as [X|[_ []]]. congruence.
+      + exfalso. apply D2 in S. rewrite (B eq_refl) in S. discriminate.
+    - (* MUOpen *) destruct St as (A & B & _ & _ & D & D2 & _). rewrite E in *. cbn in *.
+      destruct Ev as [C|[S|S]].
+      + apply nonempty_app_l. unfold main_steps. rewrite E. apply nonempty_map, nonempty_map, open_enabled, C.
+      + exfalso. apply D in S. destruct (A eq_refl) as [X|[_ []]]. congruence.
+      + exfalso. apply D2 in S. rewrite (B eq_refl) in S. discriminate.
+    - (* MUSend *) apply nonempty_app_l. unfold main_steps. rewrite E. apply nonempty_map, nonempty_map, out_send_enabled.
+    - (* MSelect *) apply nonempty_app_l. unfold main_steps. rewrite E. apply nonempty_map.
+      destruct Ev as [C|[S|S]].
+      + rewrite C. discriminate.
+      + apply nonempty_app_r, nonempty_app_l. destruct (islot s); [discriminate | congruence].
+      + apply nonempty_app_r, nonempty_app_r. destruct (oslot s); [discriminate | congruence].
+    - (* MDWait *) pose proof St as (_ & _ & _ & _ & _ & _ & F & _). rewrite E in F. cbn in F.
+      assert (C : ctx_done s = true) by (unfold ctx_done; rewrite (F eq_refl); reflexivity).
+      destruct (i_alive (ip s)) eqn:IA.
+      { apply nonempty_app_r, nonempty_app_l, i2o_enabled; auto. }
+      destruct (o_alive (op s)) eqn:OA.
+      { apply nonempty_app_r, nonempty_app_r, o2i_enabled; auto. }
+      apply nonempty_app_l. unfold main_steps. rewrite E.
+      assert (W : wg s = 0%nat) by (unfold wg; destruct (ip s), (op s); cbn in *; try discriminate; reflexivity).
+      rewrite W. discriminate.
+  Qed.
+
 
   (* ---- user-facing corollaries ---- *)
   Theorem requests_prefix s : Reach s -> exists k, sent_out s = firstn k (in_msgs (in_recv sc)).
